@@ -9,10 +9,11 @@ git checkout -q -- . ; git clean -fdq -e target
 OUT=/verif/seeded/$P-mut$N; mkdir -p $OUT
 cp $M/mut$N.diff $OUT/patch.diff; cp $M/mut${N}_demo.rs $OUT/demo.rs; cp $M/mut$N.json $OUT/agent_meta.json 2>/dev/null
 DEMOSRC=$M/mut${N}_demo.rs
-if grep -q "^mod \|^#\[cfg(test)\]" $DEMOSRC && ! grep -q "^use trustfall_core" $DEMOSRC; then
+if grep -q "trustfall_core/src/[A-Za-z0-9_/]*\.rs" $DEMOSRC && ! grep -q "^use trustfall_core" $DEMOSRC; then
   # in-crate test module: append to the source file named in the header comment
   TARGET=$(grep -o "trustfall_core/src/[A-Za-z0-9_/]*\.rs" $DEMOSRC | head -1)
-  MODE=append; FILTER=$(grep -o "^mod [a-z0-9_]*" $DEMOSRC | head -1 | cut -d' ' -f2)
+  MODE=append; LP=$(echo "${P}_mut${N}" | tr 'A-Z' 'a-z')
+  if grep -q "fn ${LP}" $DEMOSRC || grep -q "mod ${LP}" $DEMOSRC; then FILTER=$LP; else FILTER=$(grep -o "^mod [a-z0-9_]*" $DEMOSRC | head -1 | cut -d' ' -f2); fi
   place() { cat $DEMOSRC >> $TARGET; }
   run_demo() { cargo test -p trustfall_core --offline --lib $FILTER 2>&1 | grep -E "^test result|error(\[|:)" | head -3; }
 else
